@@ -75,7 +75,7 @@ func runAttrOps(start []aop, ops []aop) (Req, *Toks) {
 
 func init() {
 	props["C09"] = func(c *Ctx) {
-		c.Res.Rule = "operation sequences over Add/Set/Del/Get/Lookup: exhaustive up to a length over types {-1,1,2,256} x values {empty,[7]}, then random sequences <=40 ops with duplicate runs, large values (252..255 bytes) and totals around 4096; after every op the list, AttributesEncodedLen and MarshalBinary are compared with the Go-loop model (m.) and the multimap/wire spec (s.); non-trivial = sequence containing at least one Set or Del on a key that is present"
+		c.Res.Rule = "operation sequences over Add/Set/Del/Get/Lookup: exhaustive up to a length over types {-1,1,2,256} x values {empty,[7]}, then random sequences <=40 ops with duplicate runs, large values (252..255 bytes) and totals around 4096, lists of 65..600 entries dominated by one key, 258..300 maximal attributes, 2038/2039 empty ones, thousands of unencodable ones; after every op the list, AttributesEncodedLen and MarshalBinary are compared with the Go-loop model (m.) and the multimap/wire spec (s.); non-trivial = sequence containing at least one Set or Del on a key that is present"
 		types := []int{-1, 1, 2, 256}
 		vals := [][]byte{nil, {7}}
 		var alphabet []aop
@@ -141,9 +141,56 @@ func init() {
 			req, impl := runAttrOps(start, ops)
 			c.Add(T(req, impl, tagOps(start, ops)))
 		}
+		// long lists (the loops' behaviour must not depend on how long the slice or its backing array is):
+		// one key dominating 60..95% of 65..600 entries, removed or replaced in one call
+		for i := 0; i < c.N(40, 600); i++ {
+			var start, ops []aop
+			ns := 65 + r.Intn(c.N(200, 536))
+			dom := r.Pick(1, 2, 26)
+			share := 60 + r.Intn(36)
+			for j := 0; j < ns; j++ {
+				k := dom
+				if r.Intn(100) >= share {
+					k = r.Pick(-1, 3, 4, 255, 256)
+				}
+				start = append(start, aop{0, k, r.Bytes(r.Intn(3))})
+			}
+			first := r.Pick(1, 2) // Set or Del of the dominant key
+			ops = append(ops, aop{first, dom, r.Bytes(2)}, aop{4, dom, nil}, aop{0, dom, r.Bytes(1)}, aop{2, r.Pick(3, 4, dom), nil}, aop{3, 3, nil})
+			req, impl := runAttrOps(start, ops)
+			c.Add(T(req, impl, "long-list"))
+		}
+		// extreme counts: what is omitted costs nothing, what is encoded is counted exactly
+		for i := 0; i < c.N(12, 60); i++ {
+			var start []aop
+			switch i % 4 {
+			case 0: // 258..300 maximal attributes: far beyond 65535 bytes, refused
+				for j, n := 0, 258+r.Intn(43); j < n; j++ {
+					start = append(start, aop{0, 1 + r.Intn(3), r.Bytes(253)})
+				}
+			case 1: // thousands of attributes that are not encoded at all, around a few that are
+				for j, n := 0, 2039+r.Intn(1500); j < n; j++ {
+					if r.Intn(40) == 0 {
+						start = append(start, aop{0, 1 + r.Intn(250), r.Bytes(r.Intn(5))})
+					} else {
+						start = append(start, aop{0, r.Pick(-1, 256, 300, 1000), r.Bytes(r.Intn(2))})
+					}
+				}
+			case 2: // exactly 2038 empty encodable attributes: 4096 bytes, accepted
+				for j := 0; j < 2038; j++ {
+					start = append(start, aop{0, 1 + r.Intn(250), nil})
+				}
+			case 3: // 2039: 4098 bytes, refused
+				for j := 0; j < 2039+r.Intn(3); j++ {
+					start = append(start, aop{0, 1 + r.Intn(250), nil})
+				}
+			}
+			req, impl := runAttrOps(start, []aop{{4, 1, nil}})
+			c.Add(T(req, impl, "extreme-count"))
+		}
 		c.Trivial("reads-only", "no-hit")
 		c.Flush()
-		c.RequireTags("set-present", "del-present", "set-multi", "del-multi", "reads-only", "no-hit")
+		c.RequireTags("long-list", "extreme-count", "set-present", "del-present", "set-multi", "del-multi", "reads-only", "no-hit")
 	}
 }
 
